@@ -1,6 +1,7 @@
 package eng
 
 import (
+	"hash/fnv"
 	"fmt"
 	"go/constant"
 	"go/token"
@@ -336,7 +337,13 @@ func (g *Gen) unop(st *State, x *ssa.UnOp) {
 			return
 		}
 		g.nilCheck(st, addr, x.Pos(), "load")
-		v := g.load(st, a, x.Type())
+		ls := st
+		if fv, ok := x.X.(*ssa.FreeVar); ok && g.entry != nil && g.immutableCapture(fv) {
+			// a captured variable that is never reassigned: its value on entry
+			ls = g.entry
+			g.Assumed["captured variables assigned only by their declaration keep their value (no closure assigns them; checked on the SSA form)"] = true
+		}
+		v := g.load(ls, a, x.Type())
 		g.bind(st, x, v)
 	case token.NOT:
 		v := g.val(st, x.X)
@@ -481,6 +488,9 @@ func (g *Gen) alloc(st *State, x *ssa.Alloc) {
 	}
 	r := g.allocRef(st, x.Name())
 	g.zeroObj(st, r, elem)
+	if _, isArr := elem.Underlying().(*types.Array); !isArr && g.cellTy != nil {
+		g.cellTy[r] = elem
+	}
 	g.env[x] = scalar(r, x.Type())
 }
 
@@ -686,7 +696,13 @@ func (g *Gen) makeSlice(st *State, x *ssa.MakeSlice) {
 
 // ---------------------------------------------------------------- interfaces
 
-func typeID(t types.Type) *Term { return Const("vp_type!"+typeStr(t), SInt) }
+// typeID: the identity of a dynamic type, a number derived from the type's name, so that
+// different types get different identities in every query.
+func typeID(t types.Type) *Term {
+	h := fnv.New64a()
+	h.Write([]byte(typeStr(t)))
+	return IntLit(int64(h.Sum64()>>2) + 1)
+}
 
 func (g *Gen) makeInterface(st *State, x *ssa.MakeInterface) {
 	v := g.val(st, x.X)
